@@ -21,6 +21,7 @@
 (declare-fun rawFull (Bytes) Bytes)          ; the first TLV of an input, as asn1.Unmarshal stores it in RawValue.FullBytes
 (declare-fun isTlv (Bytes) Bool)             ; the input starts with a well-formed TLV
 (assert (forall ((d Deep)) (! (and (isTlv (der d)) (= (rawFull (der d)) (der d))) :pattern ((der d)))))
-; asn1.Unmarshal as the inverse of asn1.Marshal on what Marshal produces (assumed)
+; the value asn1.Unmarshal reads from a DER string, as a function of the string (re-encoding it gives the string back
+; for DER input; the converse derParse(der(d)) = d does NOT hold for values holding an asn1.RawValue, whose Class, Tag and
+; Bytes are filled by parsing, so no such axiom is stated)
 (declare-fun derParse (Bytes) Deep)
-(assert (forall ((d Deep)) (! (= (derParse (der d)) d) :pattern ((der d)))))
